@@ -1,0 +1,8 @@
+//go:build verif
+
+package db
+
+// NewVerifDB wraps a caller-supplied backend into a *DB (verification builds only).
+func NewVerifDB(dbi DBI) *DB {
+	return &DB{dbi: dbi}
+}
